@@ -414,6 +414,8 @@ type world struct {
 	all      []*client
 	r        *rand.Rand
 	entityW1 uint32
+	pid1     uint32
+	pid2     uint32
 	stop     chan struct{}
 }
 
@@ -422,8 +424,8 @@ func newWorld(seed int64, idle, frame time.Duration) *world {
 	w.base = hagallGoroutines()
 	w.w1, w.w2, w.w3 = w.s.dial("w1", true), w.s.dial("w2", true), w.s.dial("w3", true)
 	w.all = []*client{w.w1, w.w2, w.w3}
-	w.sidA, _, _ = w.w1.join("")
-	w.w2.join(w.sidA)
+	w.sidA, w.pid1, _ = w.w1.join("")
+	_, w.pid2, _ = w.w2.join(w.sidA)
 	w.w3.join("")
 	w.entityW1, _ = w.w1.addEntity()
 	// the witnesses are well-behaved clients: they keep talking, so the idle timeout is not for them
@@ -730,6 +732,14 @@ func scenarioOrder(seed int64, idle, frame time.Duration) *verdict {
 		}
 	}()
 	time.Sleep(600 * time.Millisecond) // the backlog builds up
+	// behind the backlog, another member creates an entity and moves it: the slow member must be told, once it catches up
+	moved := make(chan uint32, 1)
+	go func() {
+		eid, _ := w.w2.addEntity()
+		w.w2.send(&hagallpb.EntityUpdatePose{Type: hagallpb.MsgType_MSG_TYPE_ENTITY_UPDATE_POSE, Timestamp: now(), EntityId: eid, Pose: &hagallpb.Pose{Px: 4242}})
+		moved <- eid
+	}()
+	time.Sleep(100 * time.Millisecond)
 	go slow.readLoop()
 	select {
 	case <-sent:
@@ -760,6 +770,115 @@ func scenarioOrder(seed int64, idle, frame time.Duration) *verdict {
 	slow.mu.Unlock()
 	if v == nil && n != total {
 		v = &verdict{"relays-lost", fmt.Sprintf("a recipient that caught up received %d of %d relays", n, total)}
+	}
+	if v == nil {
+		select {
+		case eid := <-moved:
+			if eid != 0 {
+				if _, ok := slow.waitFor(hagallpb.MsgType_MSG_TYPE_ENTITY_ADD_BROADCAST, patience, func(m hwebsocket.Msg) bool {
+					var b hagallpb.EntityAddBroadcast
+					m.DataTo(&b)
+					return b.Entity != nil && b.Entity.Id == eid
+				}); !ok {
+					v = &verdict{"relays-lost", fmt.Sprintf("a recipient that caught up on a backlog was never told of entity %d, created by another member meanwhile", eid)}
+				} else if _, ok := slow.waitFor(hagallpb.MsgType_MSG_TYPE_ENTITY_UPDATE_POSE_BROADCAST, patience, func(m hwebsocket.Msg) bool {
+					var b hagallpb.EntityUpdatePoseBroadcast
+					m.DataTo(&b)
+					return b.EntityId == eid && b.Pose != nil && b.Pose.Px == 4242
+				}); !ok {
+					v = &verdict{"relays-lost", fmt.Sprintf("a recipient that caught up on a backlog was never relayed the pose update of entity %d, made by another member meanwhile", eid)}
+				}
+			}
+		case <-time.After(patience):
+			v = &verdict{"same-session-witness-disturbed", "a member that created an entity while another member lagged was not answered in time"}
+		}
+	}
+	return w.finish(v, 0, 8*time.Second)
+}
+
+// custom messages at the edges of what the protocol allows: a body of exactly the largest size with a long recipient list
+// (duplicates, the sender, strangers with large ids) is delivered once to the member it names; one byte more is refused
+// with the too-large error and the connection lives on
+func scenarioBigFrame(seed int64, idle, frame time.Duration) *verdict {
+	w := newWorld(seed, idle, frame)
+	var ids []uint32
+	for i := 0; i < 50; i++ {
+		ids = append(ids, w.pid2, w.pid1)
+	}
+	for i := 0; i < 100; i++ {
+		ids = append(ids, 4000000000+uint32(w.r.Intn(1000000)))
+	}
+	w.r.Shuffle(len(ids), func(i, j int) { ids[i], ids[j] = ids[j], ids[i] })
+	body := bytes.Repeat([]byte{5}, 10240)
+	body[0] = byte(w.r.Intn(250))
+	var v *verdict
+	w.w1.send(&hagallpb.CustomMessage{Type: hagallpb.MsgType_MSG_TYPE_CUSTOM_MESSAGE, Timestamp: now(), Body: body, ParticipantIds: ids})
+	match := func(m hwebsocket.Msg) bool {
+		var b hagallpb.CustomMessageBroadcast
+		m.DataTo(&b)
+		return bytes.Equal(b.Body, body)
+	}
+	if _, ok := w.w2.waitFor(hagallpb.MsgType_MSG_TYPE_CUSTOM_MESSAGE_BROADCAST, patience, match); !ok {
+		v = &verdict{"custom-delivery", "a custom message with a body of exactly 10240 bytes and 200 recipient ids naming a member was not delivered to that member"}
+	}
+	time.Sleep(100 * time.Millisecond)
+	if n := w.w2.count(hagallpb.MsgType_MSG_TYPE_CUSTOM_MESSAGE_BROADCAST, match); v == nil && n != 1 {
+		v = &verdict{"custom-delivery", fmt.Sprintf("a member named 50 times in a recipient list received the message %d times", n)}
+	}
+	if v == nil {
+		r := rid()
+		_ = r
+		w.w1.send(&hagallpb.CustomMessage{Type: hagallpb.MsgType_MSG_TYPE_CUSTOM_MESSAGE, Timestamp: now(), Body: append(body, 1), ParticipantIds: ids})
+		if _, ok := w.w1.waitFor(hagallpb.MsgType_MSG_TYPE_ERROR_RESPONSE, patience, func(m hwebsocket.Msg) bool {
+			var e hagallpb.ErrorResponse
+			m.DataTo(&e)
+			return int32(e.Code) == int32(hagallpb.ErrorCode_ERROR_CODE_TOO_LARGE)
+		}); !ok {
+			v = &verdict{"custom-size-limit", "a custom message with a body of 10241 bytes was not refused with the too-large error"}
+		} else if !w.w1.ping(patience) {
+			v = &verdict{"custom-size-limit", "the sender of a too large custom message was disconnected instead of refused"}
+		}
+	}
+	return w.finish(v, 0, 3*time.Second+2*idle)
+}
+
+// a member whose send queue is full (it stopped reading while the others relay a lot) asks to move to a session of its
+// own and then reads again: it must be answered, and the session it left must go on
+func scenarioStallSwitch(seed int64, idle, frame time.Duration) *verdict {
+	w := newWorld(seed, 5*time.Second, frame)
+	o := w.s.dial("mover", false)
+	w.all = append(w.all, o)
+	o.send(&hagallpb.ParticipantJoinRequest{Type: hagallpb.MsgType_MSG_TYPE_PARTICIPANT_JOIN_REQUEST, Timestamp: now(), RequestId: rid(), SessionId: w.sidA})
+	time.Sleep(50 * time.Millisecond)
+	body := bytes.Repeat([]byte{7}, 10000)
+	flooded := make(chan struct{})
+	go func() {
+		defer close(flooded)
+		for i := 0; i < 3000; i++ {
+			if w.w1.send(&hagallpb.CustomMessage{Type: hagallpb.MsgType_MSG_TYPE_CUSTOM_MESSAGE, Timestamp: now(), Body: body}) != nil {
+				return
+			}
+		}
+	}()
+	time.Sleep(800 * time.Millisecond) // the mover's queue fills, the relays to it stall
+	r := rid()
+	o.send(&hagallpb.ParticipantJoinRequest{Type: hagallpb.MsgType_MSG_TYPE_PARTICIPANT_JOIN_REQUEST, Timestamp: now(), RequestId: r})
+	time.Sleep(200 * time.Millisecond)
+	go o.readLoop()
+	var v *verdict
+	if _, ok := o.waitFor(hagallpb.MsgType_MSG_TYPE_PARTICIPANT_JOIN_RESPONSE, 2*patience, func(m hwebsocket.Msg) bool {
+		var resp hagallpb.ParticipantJoinResponse
+		m.DataTo(&resp)
+		return resp.RequestId == r
+	}); !ok {
+		v = &verdict{"request-never-answered", "a member that asked to move to a new session while its send queue was full was never answered after it started reading again; server goroutines: " + leftoverStacks()}
+	}
+	select {
+	case <-flooded:
+	case <-time.After(2 * patience):
+		if v == nil {
+			v = &verdict{"same-session-witness-disturbed", "a member relaying to a session whose other member moved away is still blocked; server goroutines: " + leftoverStacks()}
+		}
 	}
 	return w.finish(v, 0, 8*time.Second)
 }
@@ -972,7 +1091,7 @@ var scenarios = map[string]func(int64, time.Duration, time.Duration) *verdict{
 	"churn": scenarioChurn, "types": scenarioTypes,
 	"concurrent": scenarioConcurrent,
 	"order": scenarioOrder,
-	"malformed": scenarioMalformed, "fields": scenarioFields, "burst": scenarioBurst, "abrupt": scenarioAbrupt, "stall-pose": scenarioStallPose,
+	"malformed": scenarioMalformed, "fields": scenarioFields, "burst": scenarioBurst, "abrupt": scenarioAbrupt, "stall-pose": scenarioStallPose, "stall-switch": scenarioStallSwitch, "bigframe": scenarioBigFrame,
 	"stall-chatty": scenarioStallChatty, "stall-silent": scenarioStallSilent, "idle": scenarioIdle,
 }
 
